@@ -1,9 +1,10 @@
 import re
 from copy import deepcopy
 from fractions import Fraction
-from xml.sax.saxutils import escape
+from xml.sax.saxutils import escape, quoteattr
 
 from bs4 import BeautifulSoup, NavigableString
+from bs4.formatter import XMLFormatter
 
 from ..base import (
     BaseReader, BaseWriter, CaptionSet, CaptionList, Caption, CaptionNode,
@@ -66,6 +67,18 @@ MICROSECONDS_PER_UNIT = {
 }
 
 DFXP_DEFAULT_LANGUAGE_CODE = "en"
+
+
+class _AttributeEscapingFormatter(XMLFormatter):
+    """Output formatter for the writers: element text is written as it is
+    (it is escaped where it is produced, and contains hand-written span
+    markup), attribute values are XML-escaped."""
+
+    def __init__(self):
+        super().__init__(entity_substitution=None)
+
+    def attribute_value(self, value):
+        return escape(value)
 
 
 class DFXPReader(BaseReader):
@@ -399,7 +412,8 @@ class DFXPWriter(BaseWriter):
 
             body.append(div)
         self.region_creator.cleanup_regions()
-        caption_content = dfxp.prettify(formatter=None)
+        caption_content = dfxp.prettify(
+            formatter=_AttributeEscapingFormatter())
         return caption_content
 
     @staticmethod
@@ -486,7 +500,7 @@ class DFXPWriter(BaseWriter):
 
             content_with_style = _recreate_style(node.content, dfxp)
             for style, value in list(content_with_style.items()):
-                styles += f' {style}="{value}"'
+                styles += f' {style}={quoteattr(value)}'
             if node.layout_info:
                 region_id, region_attribs = (
                     self.region_creator.get_positioning_info(
